@@ -397,3 +397,8 @@ def check(run):
     r17f(run)
     r17g(run)
     r17h(run)
+    # shared with C16: a class is looked up in the converter registry while it is still being set up (self-reference);
+    # the lookup after set-up only recovers if the memo holds positive answers only
+    from . import c16
+    run.rules_run.append("R16d")
+    c16.r16d(run, c16.registry_class(run))
